@@ -1781,6 +1781,17 @@ impl ElementMut for XmlElement {
         Ok(())
     }
 
+    fn remove_attribute_node(&self, old_attr: XmlAttr) -> error::Result<XmlAttr> {
+        // The node itself must be an attribute of this element, not merely one of the same name.
+        match self.get_attribute_node(old_attr.name().as_str()) {
+            Some(attr) if Rc::ptr_eq(&attr.attribute, &old_attr.attribute) => {
+                self.remove_attribute(old_attr.name().as_str())?;
+                Ok(attr)
+            }
+            _ => Err(error::DomException::NotFoundErr)?,
+        }
+    }
+
     fn set_attribute_node(&self, new_attr: XmlAttr) -> error::Result<Option<XmlAttr>> {
         if !same_document(&self.owner_document(), &new_attr.owner_document()) {
             return Err(error::DomException::WrongDocumentErr)?;
